@@ -334,6 +334,9 @@ def driverStep (d : DSt) (line : String) : DSt × String :=
     let c := getColor d.l.now d.l.stack
     (d, "c " ++ toString c.1 ++ " " ++ toString c.2.1 ++ " " ++ toString c.2.2)
   | [("stack", _)] => (d, "s" ++ String.join (d.l.stack.map (fun e => " " ++ showEntry e)))
+  | [("overdue", _)] =>
+    -- fade-out delays whose deadline has passed and which have not fired
+    (d, "t" ++ String.join ((d.l.timers.filter (fun t => decide (t.2 ≤ d.l.now))).map (fun t => " " ++ toString t.1)))
   | [("hw", _)] =>
     (d, "h" ++ String.join (d.chans.map (fun c => " " ++ toString c.lastB.1 ++ "/" ++ toString c.lastB.2 ++ "/" ++
       toString c.tasks.length)))
